@@ -189,11 +189,14 @@ def _body(cs, k, d):
 
     shared = [res.data] if P("shared_placeholder", False) else [None]
 
+    deletes = [0]
+
     async def deleting():
         for _ in range(d):
             await Suspend(W)
         try:
             del res.data
+            deletes[0] += 1
         except AttributeError:
             pass
 
@@ -226,6 +229,17 @@ def _body(cs, k, d):
             ok = fail("cached_property:awaiters-received-different-values-under-lock", (choices.trace, vals)) and ok
         if not cancelled and state["runs"] != 1:
             ok = fail("cached_property:getter-run-count-under-lock", (choices.trace, state["runs"])) and ok
+    if with_lock and deleter and not cancelled and state["runs"] > 1 + deletes[0]:
+        # every delete permits one recomputation
+        ok = fail("cached_property:more-getter-runs-than-deletes-permit-under-lock", (choices.trace, state["runs"], deletes[0])) and ok
+    if not deleter and state["returned"]:
+        # a failed or cancelled computation neither caches nor removes anything: the value of
+        # the last getter run to return is still cached
+        if res.__dict__.get("data") is None or getattr(res.__dict__.get("data"), "value", None) is not state["returned"][-1]:
+            runs_q = state["runs"]
+            rq = Driver(W).call(_await(res.data))
+            if state["runs"] != runs_q or rq[0] != "ok" or rq[1] is not state["returned"][-1]:
+                ok = fail("cached_property:cached-value-lost-without-delete", (choices.trace,)) and ok
     if not cancelled and len(got) != NT:
         ok = fail("cached_property:an-awaiter-did-not-finish", (choices.trace, got)) and ok
     for l in locks:
@@ -281,6 +295,8 @@ def jobs(tier):
         add("h_conc", T=3, GSUSP=1, lock=lock)
         add("h_conc", T=2, GSUSP=1, lock=lock, shared_placeholder=True)
         add("h_conc", T=2, GSUSP=1, lock=lock, D=2)
+        if lock:
+            add("h_conc", T=3, GSUSP=1, lock=True, D=1)
         add("h_conc", T=2, GSUSP=2, lock=lock, K=3)
         if lock:
             add("h_conc", T=2, GSUSP=1, lock=True, lock_susp=1)
